@@ -303,6 +303,7 @@ func main() {
 	ixBodies(pkgs)
 	caseMapSites(pkgs)
 	errorTemplates(pkgs)
+	receiverMutators(pkgs)
 	if p := pkgs["cors"]; p != nil {
 		icfgWrites(p)
 	}
